@@ -1743,6 +1743,18 @@ class C06(Oracle):
                                 out.append(V('stochastic_raytracing/hides-always-lit-cell', f'{c} cell {(i, j)} ({name})'))
             return out
         pov = Position(-area.ymin, -area.xmin)
+        if 0 <= pov.y < H and 0 <= pov.x < W:
+            # a request that fails half-way (a view of the same shape holding something that is not a grid
+            # object) comes first: it leaves nothing behind for the valid request that follows
+            try:
+                from gym_gridverse.envs import visibility_functions as vf_
+                from gym_gridverse.grid import Grid
+
+                bad = Grid([[Floor() for _ in range(W)] for _ in range(H)])
+                bad.objects[0 if pov.y else H - 1][0 if pov.x else W - 1] = object()
+                vf_.visibility_function_registry['raytracing' if which != 'partially_occluded' else which](bad, pov)
+            except Exception:
+                pass
         try:
             o = real_obs(which, s, area)
         except (NotImplementedError, ValueError):
@@ -2674,7 +2686,28 @@ class C16(Oracle):
             x1, x2 = s1, s2
         if not sp.contains(x1) or not sp.contains(x2):
             return out
-        d1, d2 = rep.convert(x1), rep.convert(x2)
+        d1 = rep.convert(x1)
+        # conversions that fail in between (the agent at a position that is not a pair of grid indices: just
+        # outside the grid, fractional) are refused and leave nothing behind in the representation object:
+        # the same member converts to the same arrays afterwards
+        from gym_gridverse.debugging import reset_gv_debug
+
+        keep_pose = (x1.agent.position, x1.agent.orientation)
+        for badpos, dbg in ((Position(h, 0), False), (Position(float(keep_pose[0].y), float(keep_pose[0].x)), True), (Position(0, w + 1), False)):
+            try:
+                reset_gv_debug(dbg)
+                x1.agent.position = badpos
+                rep.convert(x1)
+            except Exception:
+                pass
+            finally:
+                reset_gv_debug(None)
+                x1.agent.position = keep_pose[0]
+        d1b = rep.convert(x1)
+        if not all(np.array_equal(d1[k], d1b[k]) for k in d1):
+            out.append(V('representation/conversion-depends-on-an-earlier-refused-conversion', f'{enc} {enc_state(x1)}: {[k for k in d1 if not np.array_equal(d1[k], d1b[k])]}'))
+            return out
+        d2 = rep.convert(x2)
         same_rep = all(np.array_equal(d1[k], d2[k]) for k in d1)
         same = x1.grid == x2.grid and x1.agent == x2.agent
         if same_rep != same:
